@@ -94,6 +94,15 @@ def run_witness(spec):
         return None, 'witness timed out'
 
 
+def _repo_head():
+    import subprocess
+    try:
+        return subprocess.run(['git', '-C', os.environ.get('VERIF_REPO', '/repo'), 'rev-parse', '--short', 'HEAD'],
+                              capture_output=True, text=True, timeout=10).stdout.strip()
+    except Exception:  # noqa: BLE001
+        return ''
+
+
 def source_hashes(src):
     return {m: h[:16] for m, h in src.file_hash.items()}
 
@@ -194,12 +203,43 @@ def check_property(prop, tier, seed, spec):
             faults.append((f['id'], f'witness did not run: {out}'))
         kf_evidence.append({'id': f['id'], 'what': f['what'], 'witness_reproduces': rep,
                             'obligations_covered': sorted({o['name'] for o in hit})})
-    # refuted obligations are violations; `unknown` (solver gave no answer) is UNDECIDED, never a violation
-    violations = [o for o in failed if id(o) not in covered and o['status'] != 'unknown']
+    # refuted obligations are violations.  An obligation the solvers leave `unknown` is a violation only
+    # if it is a REGRESSION: its name is in the committed baseline of obligations discharged on the pinned
+    # tree (baseline/<prop>.json, written by `VERIF_WRITE_BASELINE=1 ./check <prop>`, never at check time) --
+    # "an obligation that passed on the unchanged tree and now fails, with the solver's reason attached";
+    # it is reported `no-failing-input-found`.  Any other `unknown` is UNDECIDED (exit 2).
+    base_path = os.path.join(ROOT, 'baseline', f'{prop}.json')
+    baseline = set()
+    if os.path.exists(base_path) and not os.environ.get('VERIF_WRITE_BASELINE'):
+        with open(base_path) as f_:
+            baseline = set(json.load(f_)['discharged'])
+    confirmed_names = set()
+    if any(o['status'] == 'unknown' and o.get('inputs') and id(o) not in covered for o in failed):
+        # candidate counter-models of `unknown` obligations: a violation if the real code confirms one
+        from . import replay as _rp
+        tried = set()
+        for o in failed:
+            if o['status'] == 'unknown' and o.get('inputs') and id(o) not in covered and o['name'] not in tried \
+                    and len(tried) < 8:
+                tried.add(o['name'])
+                try:
+                    if _rp.native_replay(o['name'].split('/')[0], o['inputs']).get('confirmed'):
+                        confirmed_names.add(o['name'])
+                except Exception:  # noqa: BLE001
+                    pass
+    violations = [o for o in failed if id(o) not in covered
+                  and (o['status'] != 'unknown' or o['name'] in baseline or o['name'] in confirmed_names)]
     for o in failed:
-        if id(o) not in covered and o['status'] == 'unknown':
+        if id(o) not in covered and o['status'] == 'unknown' and o['name'] not in baseline \
+                and o['name'] not in confirmed_names:
             if not any(u[0] == o['name'] for u in undecided):
                 undecided.append((o['name'], f"solver answered unknown ({o.get('backend')}, path {str(o.get('path'))[-24:]})"))
+    if os.environ.get('VERIF_WRITE_BASELINE') and not os.environ.get('VERIF_REPO'):
+        bad_names = {o['name'] for o in failed}
+        names = sorted({o['name'] for o in obligations if o['name'] not in bad_names})
+        os.makedirs(os.path.join(ROOT, 'baseline'), exist_ok=True)
+        with open(base_path, 'w') as f_:
+            json.dump({'property': prop, 'repo_head': _repo_head(), 'tier': tier, 'discharged': names}, f_, indent=0)
     # ---- replay files
     vio_lines = []
     if violations:
